@@ -192,7 +192,7 @@ def run(res: Results, idx: Index, tier: str) -> None:
         c02.run(sub, idx, tier)
         n_x = 0
         for inst in sub.instances:
-            if inst.rule in ("R-C02h", "R-C02k") or (inst.rule in ("R-C02a", "R-C02f") and ("transpose" in (inst.func + inst.key).lower() or "reshape" in (inst.func + inst.key).lower())):
+            if inst.rule in ("R-C02h", "R-C02k", "R-C02l") or (inst.rule in ("R-C02a", "R-C02f") and ("transpose" in (inst.func + inst.key).lower() or "reshape" in (inst.func + inst.key).lower())):
                 n_x += 1
                 res.add("R-C12d", inst.status, inst.site, f"{inst.rule}::{inst.key}", f"[C02 {inst.rule}] {inst.detail}", inst.func)
         res.analysed["c02_instances_for_layout_folds"] = n_x
